@@ -1,5 +1,6 @@
 """C07 – hologram optimisers return a displayable hologram and its true reconstruction.
-For every routine (torch / NumPy Gerchberg-Saxton, stochastic gradient descent, multi-colour optimiser, double-phase depth shift):
+For every routine (torch / NumPy Gerchberg-Saxton, NumPy multi-plane Gerchberg-Saxton, stochastic gradient descent, multi-colour optimiser,
+legacy multiplane optimiser, double-phase depth shift):
 finite output of the input's resolution, the advertised display constraint, and the returned reconstruction compared with (a) the
 implementation re-propagating the returned hologram with the same settings and (b) the Lean model's forward of the returned hologram."""
 import logging
@@ -190,6 +191,8 @@ def run(ctx):
                 ctx.case(('qmodel', bits, v), True)
                 if not (0 <= q < 2 * np.pi + 1e-12 and abs(lvl - round(lvl)) < 1e-9):
                     ctx.alarm('correspondence', 'model quantizedPhase(%d, %r) = %r is off the grid' % (bits, v, q))
+    legacy_multiplane_cases(ctx)
+    gs3d_cases(ctx)
     # ---------------- double-phase depth shift
     for (h, w) in ([(6, 6), (8, 8), (6, 8)] if ctx.quick else [(6, 6), (8, 8), (6, 8), (10, 10), (12, 8)]):
         for d in (1e-3, -1e-3, 5e-4, -2e-3, 0.0):
@@ -208,9 +211,186 @@ def run(ctx):
                               {'routine': 'shift_w_double_phase', 'what': 'finite', 'negative_shift': d < 0})
 
 
+def legacy_run(rec, seed):
+    """build the legacy multiplane optimiser from a record, optimise, and evaluate the contracts; returns list of (what, text)"""
+    import odak.learn.wave as LW
+    h, w, planes = rec['h'], rec['w'], rec['planes']
+    gen = torch.Generator().manual_seed(seed)
+    targets = torch.rand(planes, h, w, generator=gen)
+    if rec['target'] == 'constant':
+        targets = torch.full((planes, h, w), 0.5)
+    loss_function = None
+    if rec['loss'] == 'multiplane_loss':
+        ml = LW.multiplane_loss(torch.rand(3, h, w, generator=gen), torch.rand(h, w, generator=gen), number_of_planes=planes, target_blur_size=3)
+        loss_function, targets = ml, ml.get_targets()[0]
+    kw = dict(wavelength=rec['wavelength'], image_location=rec['image_location'], image_spacing=rec['image_spacing'], slm_pixel_pitch=rec['dx'],
+              slm_resolution=[h, w], targets=targets, propagation_type=rec['method'], propagator_type=rec['propagator_type'],
+              number_of_iterations=rec['iterations'], learning_rate=0.1, loss_function=loss_function, number_of_planes=planes,
+              zero_mode_distance=rec['zero_mode_distance'])
+    # the constructor reseeds torch from the clock (torch.random.seed()): pin it so that the run can be replayed from the record
+    orig = torch.random.seed
+    torch.random.seed = lambda: torch.manual_seed(seed)
+    try:
+        opt = LW.multiplane_hologram_optimizer(**kw)
+    finally:
+        torch.random.seed = orig
+    phase, amplitude, recon = opt.optimize()
+    fails = []
+    if tuple(phase.shape) != (h, w) or tuple(amplitude.shape) != (h, w) or tuple(recon.shape) != (planes, h, w):
+        return [('finite_shape', 'returns phase %s, amplitude %s, reconstructions %s for a %dx%d SLM and %d planes'
+                 % (tuple(phase.shape), tuple(amplitude.shape), tuple(recon.shape), h, w, planes))]
+    if not (torch.isfinite(phase).all() and torch.isfinite(amplitude).all() and torch.isfinite(recon).all()):
+        return [('finite_shape', 'non-finite phase / amplitude / reconstruction')]
+    if float((amplitude - 1).abs().max()) > 1e-5:
+        fails.append(('unit_amplitude', 'the phase-only hologram has amplitudes in [%g, %g]' % (float(amplitude.min()), float(amplitude.max()))))
+    if float(recon.min()) < 0:
+        fails.append(('intensity', 'reconstructed intensities go down to %g' % float(recon.min())))
+    holo = torch.polar(amplitude, phase)
+    scale = max(1.0, float(recon.abs().max()))
+    # (a) the object's own forward model applied to the returned hologram
+    again = opt.reconstruct(amplitude, phase).detach()
+    if float((again - recon).abs().max()) > 1e-5 * scale:
+        fails.append(('reconstruction', 'returned intensities differ from reconstruct(returned amplitude, returned phase) by %.3g'
+                      % float((again - recon).abs().max())))
+    # (b) a propagator built afresh with the same settings (no history)
+    fresh = LW.propagator(resolution=[h, w], wavelengths=[rec['wavelength']], pixel_pitch=rec['dx'], number_of_frames=1, number_of_depth_layers=planes,
+                          volume_depth=planes * rec['image_spacing'], image_location_offset=rec['image_location'], propagation_type=rec['method'],
+                          propagator_type=rec['propagator_type'], back_and_forth_distance=rec['zero_mode_distance'])
+    for d in range(planes):
+        indep = fresh(holo, 0, d).abs() ** 2
+        if float((indep - recon[d]).abs().max()) > 5e-4 * scale:
+            fails.append(('reconstruction_vs_fresh', 'plane %d: returned intensities differ from a fresh propagator with the same settings applied to the '
+                          'returned hologram by %.3g (scale %.3g)' % (d, float((indep - recon[d]).abs().max()), scale)))
+            break
+    # (c) 'forward' propagators: plain pad / propagate / crop with the library's propagate_beam over the propagator's plane distances
+    if rec['propagator_type'] == 'forward' and rec['method'] != 'Impulse Response Fresnel':
+        for d in range(planes):
+            z = float(fresh.distances[d])
+            direct = LW.propagate_beam(holo, 2 * math.pi / rec['wavelength'], z, rec['dx'], rec['wavelength'], propagation_type=rec['method'],
+                                       zero_padding=[True, False, True], aperture=fresh.aperture).abs() ** 2
+            if float((direct - recon[d]).abs().max()) > 5e-4 * scale:
+                fails.append(('reconstruction_vs_propagate_beam', 'plane %d at distance %g: returned intensities differ from propagate_beam of the returned '
+                              'hologram by %.3g' % (d, z, float((direct - recon[d]).abs().max()))))
+                break
+    return fails
+
+
+def legacy_multiplane_cases(ctx):
+    rng = ctx.rng
+    try:
+        import odak.learn.wave as LW
+        LW.multiplane_hologram_optimizer
+    except (ImportError, AttributeError):
+        ctx.note('odak.learn.wave.legacy.multiplane_hologram_optimizer is not importable: not exercised')
+        return
+    shapes = [(8, 8), (10, 12), (9, 9), (7, 10), (12, 8), (6, 6)] if ctx.quick else [(8, 8), (10, 12), (9, 9), (7, 10), (12, 8), (6, 6), (11, 13), (16, 16)]
+    methods = ['Bandlimited Angular Spectrum', 'Angular Spectrum', 'Transfer Function Fresnel']
+    k = 0
+    for (h, w) in shapes:
+        for ptype in ('back and forth', 'forward'):
+            for rep_ in range(1 if ctx.quick else 3):
+                k += 1
+                rec = {'routine': 'multiplane_hologram_optimizer', 'h': h, 'w': w, 'planes': 1 + k % 3, 'iterations': 1 + (k // 2) % 3,
+                       'method': methods[k % 3], 'propagator_type': ptype, 'wavelength': rng.choice([0.5, 0.6]), 'dx': rng.uniform(0.7, 1.2),
+                       'image_location': rng.choice([1.0, -1.0, 0.0]) * rng.uniform(0.5, 2.0), 'image_spacing': rng.uniform(0.2, 1.0),
+                       'zero_mode_distance': rng.uniform(0.5, 2.0), 'target': 'constant' if k % 7 == 0 else 'random',
+                       'loss': 'multiplane_loss' if k % 5 == 0 else 'default', 'torch_seed': rng.randrange(10 ** 6)}
+                odd = bool(h % 2 or w % 2)
+                ctx.case(('legacy', h, w, rec['planes'], rec['iterations'], rec['method'], ptype, rec['torch_seed']), rec['target'] != 'constant',
+                         rec if len(ctx.samples) < 6 else None)
+                ctx.count('legacy_multiplane/%s/%s/%d planes' % ('odd' if odd else 'even', ptype, rec['planes']))
+                ctx.count('legacy_multiplane/loss=%s' % rec['loss'])
+                try:
+                    fails = legacy_run(rec, rec['torch_seed'])
+                except Exception as e:
+                    ctx.violation('multiplane_hologram_optimizer raised %r' % e, rec, {'routine': 'multiplane_hologram_optimizer', 'what': 'raises', 'odd': odd,
+                                                                                      'loss': rec['loss']})
+                    continue
+                for what, text in fails:
+                    ctx.violation('multiplane_hologram_optimizer (%s, %s, %dx%d): %s' % (rec['method'], ptype, h, w, text), rec,
+                                  {'routine': 'multiplane_hologram_optimizer', 'what': what, 'odd': odd, 'propagator_type': ptype})
+
+
+def gs3d_run(rec):
+    """NumPy gerchberg_saxton_3d from a record; returns ('rejected', text) / list of (what, text)"""
+    import odak.wave as NW
+    h, w, D = rec['h'], rec['w'], len(rec['distances'])
+    rs = np.random.RandomState(rec['np_seed'])
+    fields = (rs.rand(D, h, w) + 0j) if rec['target'] == 'random' else np.full((D, h, w), 0.5 + 0j)
+    init = rs.rand(h, w) * 2 * np.pi if rec['initial_phase'] else None
+    args = [fields, rec['iterations'], list(rec['distances']), rec['dx'], rec['wavelength'], 2 * np.pi]
+    kw = {} if rec['method'] is None else {'propagation_type': rec['method']}
+    np.random.seed(rec['np_seed'])
+    holo = NW.gerchberg_saxton_3d(*args, initial_phase=None if init is None else init.copy(), **kw)
+    holo = np.asarray(holo)
+    fails = []
+    if holo.shape != (h, w):
+        return [('shape', 'returns a %s hologram for %dx%d targets' % (holo.shape, h, w))]
+    if not np.isfinite(holo).all():
+        return [('finite', 'hologram has %d non-finite samples' % int((~np.isfinite(holo)).sum()))]
+    a = np.abs(holo)
+    if D == 1 and np.max(np.abs(a - 1)) > 1e-5:
+        fails.append(('unit_amplitude', 'single-plane hologram is not phase-only: amplitudes in [%g, %g]' % (a.min(), a.max())))
+    if a.max() > D + 1e-4:
+        fails.append(('amplitude_bound', 'the sum of %d phase-only layers has amplitude %g' % (D, a.max())))
+    if init is not None:
+        np.random.seed(rec['np_seed'] + 1)
+        other = np.asarray(NW.gerchberg_saxton_3d(*args, initial_phase=init.copy(), **kw))
+        if not np.array_equal(holo, other):
+            fails.append(('initial_phase', 'with the same initial_phase two calls differ by %.3g (the start is not the given phase)' % np.max(np.abs(holo - other))))
+    return fails
+
+
+def gs3d_cases(ctx):
+    rng = ctx.rng
+    methods = ['Transfer Function Fresnel', 'Angular Spectrum', 'Bandlimited Angular Spectrum', 'Impulse Response Fresnel', 'Fraunhofer', 'Fraunhofer Inverse', None]
+    shapes = [(6, 6), (6, 8), (8, 6), (10, 10), (7, 7), (6, 9)] if ctx.quick else [(6, 6), (6, 8), (8, 6), (10, 10), (12, 8), (7, 7), (6, 9), (9, 8), (16, 16)]
+    k = 0
+    for (h, w) in shapes:
+        for method in methods:
+            k += 1
+            D = 1 + k % 3
+            rec = {'routine': 'np.gerchberg_saxton_3d', 'h': h, 'w': w, 'iterations': 1 + (k // 3) % 3, 'method': method,
+                   'distances': [rng.choice([-1, 1]) * rng.uniform(0.5, 4) for _ in range(D)], 'dx': rng.uniform(0.7, 1.2), 'wavelength': rng.choice([0.5, 0.6]),
+                   'np_seed': rng.randrange(2 ** 31 - 2), 'target': 'constant' if k % 6 == 0 else 'random', 'initial_phase': (k // 2) % 2 == 0}
+            odd = bool(h % 2 or w % 2)
+            try:
+                fails = gs3d_run(rec)
+            except Exception as e:
+                if odd and isinstance(e, ValueError) and 'broadcast' in str(e):
+                    ctx.count('gs3d/rejected: odd side (crop window of 2*(side//2) samples)')       # same mechanism as listed finding F30
+                    continue
+                fails = e
+            ctx.case(('gs3d', h, w, method, D, rec['iterations'], rec['np_seed']), rec['target'] != 'constant', rec if len(ctx.samples) < 6 else None)
+            ctx.count('gs3d/%s/%s/%d planes%s' % ('odd' if odd else 'even', method or 'default method', D, '/initial_phase' if rec['initial_phase'] else ''))
+            if isinstance(fails, Exception):
+                e = fails
+                ctx.violation('NumPy gerchberg_saxton_3d(propagation_type=%s) raised %r for %dx%d targets'
+                              % ('its default' if method is None else repr(method), e, h, w), rec,
+                              {'routine': 'np.gerchberg_saxton_3d', 'what': 'raises', 'odd': odd, 'default_method': method is None})
+                continue
+            for what, text in fails:
+                ctx.violation('NumPy gerchberg_saxton_3d (%s, %dx%d, %d planes): %s' % (method, h, w, D, text), rec,
+                              {'routine': 'np.gerchberg_saxton_3d', 'what': what, 'odd': odd})
+
+
 def replay(ctx, rep):
     import odak.learn.wave as LW
     r = rep['replay']
+    if r.get('routine') == 'multiplane_hologram_optimizer':
+        fails = legacy_run(r, r['torch_seed'])
+        for f in fails:
+            print('fails:', f[1])
+        return not fails
+    if r.get('routine') == 'np.gerchberg_saxton_3d':
+        try:
+            fails = gs3d_run(r)
+        except Exception as e:
+            print('raised %r' % e)
+            return False
+        for f in fails:
+            print('fails:', f[1])
+        return not fails
     if r.get('routine') == 'shift_w_double_phase':
         out = LW.shift_w_double_phase(torch.rand(r['h'], r['w']) * 6.28, r['depth_shift'], 8e-6, 515e-9)
         print('NaN count', int(torch.isnan(out).sum()))
